@@ -6,6 +6,7 @@ import DdoModel.Engines.Par
 import DdoModel.Engines.Ex
 import DdoModel.Engines.Viz
 import DdoModel.Engines.ExModel
+import DdoModel.Engines.DomCyc
 /-! Line-protocol driver.  stdin: pairs of lines
       `C <engine> <id> <case tokens…>`
       `I <id> <implementation output tokens…>`
@@ -27,6 +28,7 @@ def dispatch (engine : String) (c i : List String) : Option Res :=
   | "ex" => exEngine c i
   | "viz" => vizEngine c i
   | "exmodel" => exmodelEngine c i
+  | "domcyc" => domcycEngine c i
   | _ => none
 
 partial def loop (h : IO.FS.Stream) (out : IO.FS.Stream) : IO Unit := do
